@@ -135,6 +135,9 @@ func profilesFor(id string) []*Profile {
 		withW(p, "branch", 10, "branchd", 8, "branchr", 6, "switch", 8, "switchc", 6, "updateref", 8, "commit", 10, "reset", 5, "write", 10, "add", 10,
 			"rm", 1, "restore", 0, "restores", 0, "remove", 0, "rmdir", 0, "touch", 0, "mkdir", 0)
 		p.Obs = ObsSpec{Branches: true, RevParse: true, Reflog: true}
+		// the branch commands in every spelling the command line grammar produces (surplus and combined arguments)
+		p.RawOnly = []string{"branch", "switch", "update-ref", "rev-parse"}
+		withW(p, "raw", 8)
 		return []*Profile{p}
 	case "C11":
 		p := baseProfile("reflog")
